@@ -35,7 +35,7 @@ var variationCode = map[string]int{"same": 0, "args": 1, "compact": 2, "interlea
 
 func methodIndex(pi *ProgInfo, name string) int {
 	for _, m := range pi.Methods {
-		if m.Fn.Name == name {
+		if m.Name == name {
 			return m.Index
 		}
 	}
@@ -263,11 +263,109 @@ type PlanJob struct {
 	Problems    []string
 }
 
-// EnumeratePlans runs Prog.CoroPlans(maxLen, maxPlans) in the interpreter.
-func EnumeratePlans(pi *ProgInfo, maxLen, maxPlans int) *PlanJob {
-	p := pi.P
+// ExtendPlans adds, to the plans of Prog.CoroPlans, longer source streams: all
+// streams of length 4 over {01, FF} in every cut (plus a leading empty
+// delivery), and the streams 01.. of length 5 to 8 fed one byte at a time, in
+// two halves and all at once; room {64} and {1,1,..}; variations same and
+// compact; the first and the last scalar tuple of each coroutine; no setup call.
+func ExtendPlans(base []interp.CoroPlan) []interp.CoroPlan {
+	type key struct{ method, scalars string }
+	seen := map[key]bool{}
+	perMethod := map[string][][]interp.ArgSpec{}
+	var methods []string
+	for i := range base {
+		pl := &base[i]
+		if len(pl.Setup) != 0 {
+			continue
+		}
+		k := key{pl.Method, fmt.Sprint(pl.Scalars)}
+		if seen[k] {
+			continue
+		}
+		seen[k] = true
+		if _, ok := perMethod[pl.Method]; !ok {
+			methods = append(methods, pl.Method)
+		}
+		perMethod[pl.Method] = append(perMethod[pl.Method], pl.Scalars)
+	}
+	cuts := func(n int) [][]int {
+		var out [][]int
+		for mask := 0; mask < 1<<(n-1); mask++ {
+			var c []int
+			cur := 1
+			for i := 0; i < n-1; i++ {
+				if mask&(1<<i) != 0 {
+					c = append(c, cur)
+					cur = 1
+				} else {
+					cur++
+				}
+			}
+			out = append(out, append(c, cur))
+		}
+		return append(out, append([]int{0}, out[0]...))
+	}
+	type stream struct {
+		data   []byte
+		chunks [][]int
+	}
+	var streams []stream
+	for v := 0; v < 16; v++ {
+		d := make([]byte, 4)
+		for i := range d {
+			d[i] = 0x01
+			if v&(1<<i) != 0 {
+				d[i] = 0xFF
+			}
+		}
+		streams = append(streams, stream{d, cuts(4)})
+	}
+	for n := 5; n <= 8; n++ {
+		d := make([]byte, n)
+		one := make([]int, n)
+		for i := range d {
+			d[i] = byte(i + 1)
+			one[i] = 1
+		}
+		streams = append(streams, stream{d, [][]int{{n}, one, {n / 2, n - n/2}, {1, n - 1}, {n - 1, 1}}})
+	}
+	out := base
+	for _, m := range methods {
+		tuples := perMethod[m]
+		if len(tuples) > 2 {
+			tuples = [][]interp.ArgSpec{tuples[0], tuples[len(tuples)-1]}
+		}
+		for _, st := range streams {
+			for _, ch := range st.chunks {
+				for _, room := range [][]int{{64}, {1}} {
+					for _, tup := range tuples {
+						for _, v := range []string{"same", "compact"} {
+							if v == "compact" && len(ch) == 1 && room[0] == 64 {
+								continue
+							}
+							out = append(out, interp.CoroPlan{Method: m, Data: hex.EncodeToString(st.data), Chunks: ch, Room: room, Variation: v, Scalars: tup})
+						}
+					}
+				}
+			}
+		}
+	}
+	return out
+}
+
+// EnumeratePlans runs Prog.CoroPlans(maxLen, maxPlans) — plus ExtendPlans when
+// extend is set — in the interpreter.
+func EnumeratePlans(pi *ProgInfo, maxLen, maxPlans int, extend bool) *PlanJob {
 	j := &PlanJob{PI: pi, Suspensions: map[string]int64{}}
+	if err := pi.Acquire(); err != nil {
+		j.Problems = append(j.Problems, "recompilation failed: "+err.Error())
+		return j
+	}
+	p := pi.P
 	plans, capped := p.CoroPlans(maxLen, maxPlans)
+	if extend {
+		plans = ExtendPlans(plans)
+	}
 	j.Enumerated, j.Capped = len(plans), capped
 	m := interp.NewMachine(p)
 	m.CheckBounds = false
